@@ -95,7 +95,7 @@ def run(ctx):
     procs = ctx.pick(6, 14)
     import eng_tree
 
-    tree0 = eng_tree.tree_state()
+    eng_tree.freeze_tree(ctx)
 
     def consume(sessions):
         nonlocal leaks, failed
@@ -131,7 +131,6 @@ def run(ctx):
     consume(sim)
     ctx.log(f"simulation: {len(sessions)} emitted, {len(uniq)} distinct, {len(sim)} replayed")
 
-    eng_tree.require_unchanged(tree0)
     need = ("ok", "py", "guppy", "bad_return")
     if any(acc["outcomes"].get(k, 0) == 0 for k in need) or not (acc["with_nested_compile"] and acc["user_bound"]
                                                                   and acc["steps_with_two_modules_mocked"]):
@@ -172,6 +171,9 @@ def run(ctx):
 
 
 def replay(ctx, data):
+    import eng_tree
+
+    eng_tree.freeze_tree(ctx)
     import eng_ct
 
     sess = data["replay"]["session"]
@@ -191,6 +193,9 @@ def replay(ctx, data):
 def selftest(ctx):
     import copy
 
+    import eng_tree
+
+    eng_tree.freeze_tree(ctx)
     import eng_ct
     import guppylang_internals.tracing.function as tf
     from contextlib import contextmanager
